@@ -509,6 +509,10 @@ def evaluate__max_min_functions(self: XPathFunction, context: ta.ContextType = N
                    not isinstance(x, type(values[0])) and not isinstance(values[0], type(x))
                    for x in values):
                 raise self.error('FORG0006', "values are not of a single ordered type")
+            # values without timezone are compared using the implicit timezone
+            return aggregate_func(
+                values, key=lambda x: self.with_implicit_timezone(x, context)
+            )  # type: ignore[type-var]
         elif any(isinstance(x, AbstractBinary) for x in values):
             if any(type(x) is not type(values[0]) for x in values):
                 raise self.error('FORG0006', "values are not of a single ordered type")
@@ -616,6 +620,13 @@ def select__distinct_values(self: XPathFunction, context: ta.ContextType = None)
                     yield value
                     results.append(value.value)
 
+            elif isinstance(value, AbstractDateTime):
+                # values without timezone are compared using the implicit timezone
+                adjusted = self.with_implicit_timezone(value, context)
+                if not any(is_comparable(adjusted, x) and adjusted == x for x in results):
+                    yield value
+                    results.append(adjusted)
+
             elif not any(is_comparable(value, x) and value == x for x in results):
                 # values of types that are not comparable are distinct
                 yield value
@@ -668,11 +679,13 @@ def select__index_of(self: XPathFunction, context: ta.ContextType = None) -> Ite
 
     if isinstance(value, UntypedAtomic):
         value = value.value  # untyped values are compared as strings
+    value = self.with_implicit_timezone(value, context)
 
     with CollationManager(collation, self) as manager:
         for pos, result in enumerate(self[0].atomization(context), start=1):
             if isinstance(result, UntypedAtomic):
                 result = result.value
+            result = self.with_implicit_timezone(result, context)
             try:
                 if is_comparable(result, value) and manager.eq(result, value):
                     yield pos
@@ -800,9 +813,10 @@ def evaluate__deep_equal(self: XPathFunction, context: ta.ContextType = None) ->
         collation = self.get_argument(context, 2, required=True, cls=str)
 
     # the two sequences are consumed in lockstep: each needs its own focus
+    # date/time values without timezone are compared using the implicit timezone
     return deep_equal(
-        seq1=self[0].select(copy(context)),
-        seq2=self[1].select(copy(context)),
+        seq1=(self.with_implicit_timezone(x, context) for x in self[0].select(copy(context))),
+        seq2=(self.with_implicit_timezone(x, context) for x in self[1].select(copy(context))),
         collation=collation,
     )
 
